@@ -346,7 +346,8 @@ def run(prop, tier="quick", seed=0, replay=None, only=None):
                 # companion harness found in this run (or searched for now) is the replayable witness on the real code
                 pool_ = list(nat.get(rcd.name, {}).get("failures", []))
                 if not pool_:
-                    pool_ = native_runs(rcd, None, seed * 7919 + 17, 200)["failures"]
+                    budget = min(200, max(20, 3 * (rcd.native_runs or 60)))      # (expensive harnesses declare few runs)
+                    pool_ = native_runs(rcd, None, seed * 7919 + 17, budget)["failures"]
                 if pool_:
                     found = pool_[0]
                     cdname = rcd.name
